@@ -308,7 +308,8 @@ class C24(Prop):
             cls = "other"
             nlname = "\n" in names or "\r" in names
             if clause == "crash":
-                cls = "hang-newline-name" if o.get("hang") and nlname else "other"
+                cls = "hang-whitespace-only-name" if o.get("hang") and any(n.strip(" \n") == "" for n in (c["d"], c["sub"])) \
+                    else "other"
             elif clause == "result-read":
                 cls = "ws-content" if c["content"].strip() != c["content"] else "cr-content" if "\r" in c["content"] else "other"
             elif clause == "result-write":
